@@ -5,7 +5,7 @@ with a result or an error ... a bad configuration file is reported instead of ta
 
 (1) zone files -- the module's main stream "zonefile" (syntax: ocaml/drv_zonefile.ml), op P:  zonefile P <text> <family>
     The impl driver (harness/src/bin_zonefile.rs) runs every case in its own thread with a 2 MiB stack under a
-    60 s watchdog and flushes after every case: a panic prints "Panic", a hang "Hang", a stack overflow kills
+    300 s watchdog and flushes after every case: a panic prints "Panic", a hang "Hang", a stack overflow kills
     the driver (reported as DRIVER-DIED for exactly that case).  The oracle accepts only "Ok:..." / "Err:...".
 (2) hosts files -- extra(), stream "hosts" op P (= Hosts::deserialise; ocaml/drv_hosts.ml, harness/src/bin_hosts.rs
     with the same per-case thread / watchdog / flush loop, harness/src/vthread.rs): random Unicode text, mutations
@@ -62,7 +62,7 @@ ASSUMPTIONS = [
     "loader part: the harness calls load_zone_configuration on a current-thread tokio runtime inside the per-case 2 MiB thread; "
     "no tracing subscriber is installed, so the formatting of log fields is not exercised (computing them is)",
 ]
-TRUSTED = ["per-case thread (2 MiB stack) + 60 s watchdog in harness/src/bin_zonefile.rs and harness/src/vthread.rs (hosts and config drivers)",
+TRUSTED = ["per-case thread (2 MiB stack) + 300 s watchdog in harness/src/bin_zonefile.rs and harness/src/vthread.rs (hosts and config drivers)",
            "python reading of hosts(5) in vlib/p_c14.py, used as the reference for hosts inputs beyond the model's size budget"]
 
 STRUCT = list(" \t\n\n\n\"();\\@*.$0123456789") + ["IN", "A", "SOA", "TXT", "$ORIGIN", "$INCLUDE", "example", "com.",
